@@ -75,6 +75,11 @@ HAND = [
     'a if a is None else b', 'a is None if b else c is None', 'f(a is None, b is not None)', 'x.m(a) == x.m(b)', 'x.m(a)[0]', 'f(a)[0][0]', 'x.items[0] if x.items else None', '[a][0]', '(a, b)[1]', '{"k": a}["k"]',
     'a.__class__', 'type(a)', 'str(a) + str(b)', 'int(a or 0) + 1', 'f(lambda: 1) is not None' if False else 'f(a) is not None', 'x.p == a and x.q == "q" or x.p == b', 'not x.p == a', 'not (x.p == a or x.q)',
 ]
+# replacement fields of f-strings: conversions and format specs (plain, nested, with a conversion)
+HAND += ['f"{a!r}"', 'f"{a!s}-{b!a}"', 'f"{a:>5}"', 'f"{a!r:>5}"', 'f"{a:{b}}"', 'f"{x.q!r}-{x.p}"', 'f"{x.q:>3}|"', 'f"{x.q!s:{a}}"', 'f"{{{a}}}"']
+# every slice shape: lower / upper / step each omitted, a name, a positive or a negative constant (the compiler uses different instructions for two-part and stepped slices)
+HAND += ['x.items[%s:%s%s]' % (lo, up, st) for lo in ('', 'a', '1', '-1') for up in ('', 'b', '2', '-1') for st in ('', ':', ':c', ':2', ':-1')]
+HAND += ['x.items[a:b][c]', 'x.items[a::c][0:1]', 'x.m2[a:b, c]' if False else 'x.items[a:][::c]', 'x.q[a::c]', 'x.q[::-1][a:]', '(x.items + x.items)[a::2]', 'x.items[(a or 0) + 1::c]']
 FOR2 = ['((x.p, y) for x in xs for y in x.items)', '((x.p, y.p) for x in xs for y in xs if x.p == y.p)', '((x.p, y.p) for x in xs if x.p for y in xs if y.p and x.p != y.p)',
         '(x.p for x in xs if x.p is not None for y in x.items if y)', '((x.p, y, z) for x in xs for y in x.items for z in x.items if y is not None and z is not None and y <= z)',
         '(x for x in xs if x.p is None or x.q)', '(x.p for x in xs if not x.q and x.p is not None)']
